@@ -261,23 +261,25 @@ def doQuery (a : Acc) (q : Json) : R Acc := do
               key := cont
               if cont.isNone then fin := true
           return (pages, if fin then none else key)
-        let o := Json.mkObj [("pages", Json.arr (pages.map (relRender s))), ("done", Json.bool lastCont.isNone)]
-        -- spec: the pages, put together, are exactly the graph (nothing missing, nothing twice)
         let all := pages.toList.flatten
+        let o := if inv then Json.mkObj [("union", relRender s all)]
+                 else Json.mkObj [("pages", Json.arr (pages.map (relRender s))), ("done", Json.bool lastCont.isNone)]
+        -- spec: the pages, put together, are exactly the graph (nothing missing, nothing twice)
         let okSpec := lastCont.isNone ∧ (relRender s all).compress == (relRender s gq).compress
-        let specO := if okSpec then o else Json.mkObj [("pagesUnion", relRender s gq), ("done", Json.bool true)]
+        let okSpec := if inv then (relRender s all).compress == (relRender s gq).compress else okSpec
+        let specO := if okSpec then o else (if inv then Json.mkObj [("union", relRender s gq)] else Json.mkObj [("union", relRender s gq), ("done", Json.bool true)])
         return { a with outM := a.outM.push o, outS := a.outS.push specO, nt := a.nt + 1,
                         kf := match a.kf with | some k => some k | none => kfc,
                         kfi := if kfc.isSome then a.outM.size :: a.kfi else a.kfi }
       else
       let (res, cont) := if inv then relatedIn s.db st p at_ limit scope key else relatedOut s.db st p at_ limit scope key
-      let o := Json.mkObj [("rel", relRender s res), ("done", Json.bool cont.isNone)]
+      let o := if inv then Json.mkObj [("rel", relRender s res)] else Json.mkObj [("rel", relRender s res), ("done", Json.bool cont.isNone)]
       let s' := if save ≠ "" then { s with conts := (save, (st, p, at_, scope, inv, cont)) :: s.conts } else s
       -- spec only for unpaged fresh queries: the graph implied by the latest versions (a spurious
       -- continuation that yields nothing more is allowed)
       let (specO, kf) :=
         if fresh ∧ limit = 0 then
-          (Json.mkObj [("rel", relRender s gq), ("done", Json.bool cont.isNone)], kfc)
+          ((if inv then Json.mkObj [("rel", relRender s gq)] else Json.mkObj [("rel", relRender s gq), ("done", Json.bool cont.isNone)]), kfc)
         else (o, none)
       -- queries in the known class (also pages of a saved paged query) are attributed to it
       let kfq := if inv ∧ d4Class s st at_ scope then kfc else kf
@@ -294,8 +296,30 @@ def regIds (s : S) (rids : Json) : S :=
       | _ => s) s
   | _ => s
 
+def newRids (op : Json) : List Nat :=
+  match getOpt op "newids" with
+  | some (.obj kvs) => kvs.toList.filterMap fun (_, v) => (fromJson? v : R Nat).toOption
+  | _ => []
+
+def hasUnknownRef (e : Ent) : Bool := e.refs.any (fun r => r.1 == 0 || r.2 == 0)
+
+def reresolveOne (s : S) (v : VKey × Ent) : VKey × Ent :=
+  if hasUnknownRef v.2 then
+    match s.ents.find? (·.1 == v.1) with
+    | some (_, je) => (v.1, { v.2 with refs := refPairs s je.refs })
+    | none => v
+  else v
+
+def reresolve (s : S) : S := { s with db := { s.db with versions := s.db.versions.map (reresolveOne s) } }
+
 def doOp (a : Acc) (idx : Nat) (op : Json) : R Acc := do
   let s := regIds a.s ((getOpt op "newids").getD (Json.mkObj []))
+  -- identifiers get their internal id lazily (the refs of a deleted version are only asserted when the
+  -- next version is diffed against it): re-resolve the refs of stored versions once ids are known
+  let hasNew : Bool := match getOpt op "newids" with
+    | some (.obj kvs) => !kvs.isEmpty
+    | _ => false
+  let s := if hasNew then reresolve s else s
   let a := { a with s := s }
   let kind ← getStr op "op"
   let okRc := (getStrD op "rc" "") == ""
@@ -317,7 +341,7 @@ def doOp (a : Acc) (idx : Nat) (op : Json) : R Acc := do
     | some ds =>
       let t := getNatD op "t" (s.lastT + 1)
       let pairs ← (← getArr op "ents").toList.mapM (mkEnt s)
-      let db' := storeBatch s.db ds t (pairs.map (·.1))
+      let db' := storeBatch s.db ds t (pairs.map (·.1)) (newRids op)
       let tbl := (pairs.zipIdx.map fun (p, i) => ((⟨p.1.rid, ds, t, i⟩ : VKey), p.2))
       return { a with s := { s with db := db', ents := tbl ++ s.ents, lastT := t } }
   | "txn" =>
@@ -334,7 +358,7 @@ def doOp (a : Acc) (idx : Nat) (op : Json) : R Acc := do
         let pairs ← (← getArr p "ents").toList.mapM (mkEnt s)
         parts := parts ++ [(ds, pairs.map (·.1))]
         tbl := (pairs.zipIdx.map fun (pr, i) => ((⟨pr.1.rid, ds, t, i⟩ : VKey), pr.2)) ++ tbl
-    return { a with s := { s with db := execTxn s.db t parts, ents := tbl, lastT := t } }
+    return { a with s := { s with db := execTxn s.db t parts (newRids op), ents := tbl, lastT := t } }
   | "deleteDs" =>
     if !okRc then return a
     let name ← getStr op "name"
